@@ -219,7 +219,7 @@ CLAIMS.update({
         'no longer covers the image (explicit theorem + witness: known finding); table-driven crc32 equals the bitwise reflected CRC-32 for ALL byte strings.  Leaf: IsoHybrid.record decoded independently over '
         '8 geometries x cylinder counts around 1/256/512/768/1024.  Image level: MBR signature, exactly one active partition covering the padded image, boot address = 4 x boot sector, GPT CRCs and mirror, padding, '
         'no overlap of the backup GPT with the volume, rest of the image equal to the non-hybrid image; also write - add files - write schedules.'),
-  note='Model/Hybrid.v (MBR, CHS, GPT header/entries/placement, APM): MBR layout and round trip, CHS decode, GPT header verifies, and the three known findings as _refuted theorems (clamped partition size, GPT array CRC over used entries only, backup GPT over the volume tail); tied by hybridleaf.py.  Model/HybridHist.v (isohybrid over EDIT HISTORIES: AccountBoot's El Torito state machine + add_isohybrid / rm_isohybrid / write_fp, the hybrid object updated only by the extent assignment of a write): refused calls change nothing, rm_isohybrid exact, every history keeps the hybrid well formed, a write after ANY history fails only when the accepted partition offset lies beyond the padded image (known finding, _refuted witness), padding / partition size / GPT positions for every hybrid and size; tied by hybridhistleaf.py (decoded images of random histories).  Whole-image GPT/APM contents: reader on sampled images.',
+  note='Model/Hybrid.v (MBR, CHS, GPT header/entries/placement, APM): MBR layout and round trip, CHS decode, GPT header verifies, and the three known findings as _refuted theorems (clamped partition size, GPT array CRC over used entries only, backup GPT over the volume tail); tied by hybridleaf.py.  Model/HybridHist.v (isohybrid over EDIT HISTORIES: the AccountBoot El Torito state machine + add_isohybrid / rm_isohybrid / write_fp, the hybrid object updated only by the extent assignment of a write): refused calls change nothing, rm_isohybrid exact, every history keeps the hybrid well formed, a write after ANY history fails only when the accepted partition offset lies beyond the padded image (known finding, _refuted witness), padding / partition size / GPT positions for every hybrid and size; tied by hybridhistleaf.py (decoded images of random histories).  Whole-image GPT/APM contents: reader on sampled images.',
   technique='Coq proofs over translated _calc_cc and crc32 + MBR leaf grid + independent reader on generated hybrid images',
   design='§8.12'),
 })
